@@ -73,7 +73,7 @@ func reachCases(thorough bool) (cases []clirig.ReachCase, fam map[string]int, bo
 	}
 	bounds = map[string]interface{}{"seeds": "1..3, every order of the list", "known_brokers": "0..2, every client.any() pick order", "retry_max": []int{0, 1}, "retry_backoff": "250ms (fake time)",
 		"behaviours": alpha + " (A answers, R dial refused, U dial unanswered until Net.DialTimeout, D connection dropped after the request was read, H request read and never answered until Net.ReadTimeout)",
-		"alias": "broker 1 at its own address / at the address of seed 1", "two_refresh_family": fmt.Sprintf("seeds 1..%d, behaviours %s (3 seeds: RA) in each of two successive RefreshMetadata calls", maxSeeds2, alpha2)}
+		"alias":      "broker 1 at its own address / at the address of seed 1", "two_refresh_family": fmt.Sprintf("seeds 1..%d, behaviours %s (3 seeds: RA) in each of two successive RefreshMetadata calls", maxSeeds2, alpha2)}
 	for _, rm := range []int{0, 1} {
 		// F1: NewClient
 		for n := 1; n <= 3; n++ {
